@@ -140,6 +140,43 @@ def install(E):
     E.models['DashMap::get'] = d_get('r')
     E.models['DashMap::get_mut'] = d_get('w')
 
+    def d_try_get(kind):
+        def f(E, a, ctx):
+            m = E.load(a[0])
+            th = ctx.thread
+            op = 'map.try_get' if kind == 'r' else 'map.try_get_mut'
+            s = m.slot_of(E, E.load(a[1]))
+            ev(E, op, ctx, s.key.idx)
+            # the shard lock is taken with try_lock: busy (someone holds a conflicting guard, this thread included) => Locked
+            busy = (m.writer is not None) or (kind == 'w' and len(m.readers) > 0)
+            if busy:
+                return Enum('TryResult', 2)
+            if E.decide(E.heap[s.present_cell]):
+                g = Guard(kind, m, s, th)
+                if kind == 'w':
+                    m.writer = th
+                else:
+                    m.readers[th] = m.readers.get(th, 0) + 1
+                th.guards.append(g)
+                return Enum('TryResult', 0, [g])
+            return Enum('TryResult', 1)
+        f.shared = 'map.get' if kind == 'r' else 'map.get_mut'
+        return f
+    E.models['DashMap::try_get'] = d_try_get('r')
+    E.models['DashMap::try_get_mut'] = d_try_get('w')
+
+    @reg_re(E, r'^(dashmap::try_result::)?TryResult(::<.*>)?::(try_unwrap|unwrap|is_present|is_absent|is_locked)$')
+    def try_result(E, a, ctx):
+        nm = ctx.callee.split('::')[-1]
+        v = a[0] if not isinstance(a[0], Ref) else E.load(a[0])
+        if nm == 'try_unwrap':
+            return some(v.fields[0]) if v.var == 0 else NONE
+        if nm == 'unwrap':
+            if v.var != 0:
+                raise Panic('TryResult::unwrap on ' + ('Absent' if v.var == 1 else 'Locked'))
+            return v.fields[0]
+        return z3.BoolVal(v.var == {'is_present': 0, 'is_absent': 1, 'is_locked': 2}[nm])
+
     @reg_re(E, r'^<dashmap::mapref::one::Ref(Mut)?<.*> as Deref(Mut)?>::deref(_mut)?$')
     def guard_deref(E, a, ctx):
         g = E.load(a[0])
